@@ -484,7 +484,7 @@ struct ModelRun
                     bool h = pfind(k, v);
                     probe_zombie_labels(k);
                     if (h)
-                        x.fail(step, "C04", "expired_entry_served", "key " + std::to_string(k) + " expired but was returned (value " + std::to_string(v) + ")");
+                        x.fail(step, "C04,C01", "expired_entry_served", "key " + std::to_string(k) + " expired but was returned (value " + std::to_string(v) + ")");
                 }
             }
             else if (mode >= 1)
@@ -493,7 +493,7 @@ struct ModelRun
                 first();
                 bool h = pfind(k, v);
                 if (h)
-                    x.fail(step, M.dead.count(k) ? "C04,C17" : "C01", M.dead.count(k) ? "expired_entry_served" : "absent_key_found",
+                    x.fail(step, M.dead.count(k) ? "C04,C17,C01" : "C01", M.dead.count(k) ? "expired_entry_served" : "absent_key_found",
                            "key " + std::to_string(k) + " must be absent but returned " + std::to_string(v) + " (a value written for key " +
                                std::to_string(key_of_value(v)) + ")");
                 x.label("checked_absent");
@@ -579,13 +579,13 @@ struct ModelRun
         {
             probe_zombie_labels(k);
             if (hit)
-                x.fail(step, "C04", "expired_entry_served",
+                x.fail(step, "C04,C01", "expired_entry_served",
                        std::string(what) + " key " + std::to_string(k) + " expired at or before now but was returned (value " + std::to_string(v) + ")");
         }
         else
         {
             if (hit)
-                x.fail(step, M.dead.count(k) ? "C04,C17" : "C01", M.dead.count(k) ? "expired_entry_served" : "absent_key_found",
+                x.fail(step, M.dead.count(k) ? "C04,C17,C01" : "C01", M.dead.count(k) ? "expired_entry_served" : "absent_key_found",
                        std::string(what) + " key " + std::to_string(k) + " must be absent but returned " + std::to_string(v) + " (a value written for key " +
                            std::to_string(key_of_value(v)) + ")");
             x.label("lookup_misses");
@@ -794,6 +794,15 @@ struct ModelRun
             x.label("writes_over_expired_entry");
         if (fx.doa)
             x.label("writes_dead_on_arrival");
+        if (fx.doa && r && fx.updated && x.opt.property == "C09")
+        {
+            // only in the C09 check (the probe reaps the dead entry, which other profiles want to keep resident):
+            // the call reported a write; the entry it replaced must be gone, the new one is dead on arrival
+            uint64_t pv = 0;
+            if (pfind(o.k, pv))
+                x.fail(step, "C09,C04", "reported_write_not_applied",
+                       "insert(key " + std::to_string(o.k) + ") returned true with a TTL that expires at once, but the key still serves value " + std::to_string(pv));
+        }
         note_history_labels(o.k, r);
         M = N;
         invariants(true, ob1);
